@@ -35,7 +35,12 @@ CURATED = ["", "NULL", "Null", "null", "nUlL", "TRUE", "True", "true", "FALSE", 
            " ", "a b", " a", "a ", "\t", "a\nb", "\"a\"", "'a'", "\"a", "a\"", "\"\"", "''", "'", "\"", "\"a'",
            "a=b", "a,b", "(a)", "{a}", "<a>", "a;b", "a#b", "a/*b", "a*/b", "/*a*/", "a+b", "+a", "a&b", "a|b",
            "a~b", "a!b", "a%b", "a[b]", "^a", "a:b", "a.b", "a-b", "_a", "a_", "A1_B2", "1a", "a1", "\0", "a\0b",
-           "é", "café", "中", "1,5", "1 5", "１", "0001", "-0", "+0.0", "00:00:00.0000001"]
+           "é", "café", "中", "1,5", "1 5", "１", "0001", "-0", "+0.0", "00:00:00.0000001",
+           "\xa012", "1.5\xa0", "\x1c7", "7\x85", " 1", "1 ", "\t1", "1\n", "\xa0", "\xa0a", "a\xa0", "\u20281", "1\u3000",
+           "Infinity", "INFINITY", "-Infinity", "+inf", "-nan", "+nan", "1e400", "-1e400", "True", "False", "None",
+           "12:00:00-01:00", "12:00-01", "2001-01-01T12:00:00+01:00", "12:00:60Z", "2001-01-01Z", "2001-001Z", "12:00z",
+           "0#1#", "1#1#", "2#", "#1#", "16##", "2#12#", "8#8#", "16#G#", "36#Z#", "-2#1#", "2#-1#", "--2#1#",
+           "a*/", "*/a", "/*a", "a/*", "/**/", "*/", "/*", "a#", "#a", "##"]
 
 KEYWORD, QUOTED, BASED, DECIMAL, DATETIME, UNQUOTED, NOTVALUE = (
     "keyword", "quoted", "based", "decimal", "datetime", "unquoted", "not-a-value")
